@@ -27,8 +27,9 @@ STRS = ['a', 'b', 'c', 'd', 'x', 'y', 'z', 'zz']
 TUPS = [(0, 1), (1, 2)]
 
 
-# A second decoding of the codes 0..99 ("twin" labels): floats, Fractions and ints whose ordering_key order (type name,
-# then value) is the order of the codes while their natural order is not.  The library may use a label only through
+# A second decoding of the codes 0..99 ("twin" labels): floats, Fractions and ints (three negative ones, the others above the
+# range CPython keeps as shared objects) whose ordering_key order (type name, then value) is the order of the codes while their
+# natural order is not.  The library may use a label only through
 # hashing, equality and ordering_key, so a case run under this decoding must give the same coded result as under the plain
 # one; the model speaks about codes and their order only, so the theorems cover both decodings.
 TWIN = None
@@ -37,7 +38,7 @@ TWIN = None
 def _twin_tables():
     fw = {}
     for c in range(100):
-        fw[c] = 20.5 + c if c < 3 else F(2 * c + 1, 2) if c < 6 else c - 6
+        fw[c] = 20.5 + c if c < 3 else F(2 * c + 1, 2) if c < 6 else c - 9 if c < 9 else 1000 + c     # -3..-1, then 1009..
     inv = {(type(v).__name__, float(v)): c for c, v in fw.items()}
     return fw, inv
 
@@ -77,13 +78,18 @@ def enc(label):
 
 
 def dec(n):
+    """the label a code stands for -- wherever the language allows it a NEW object on every call (equal, not identical):
+    the library may tell labels apart by == and hash only, never by identity"""
     if n < 100:
-        return n if TWIN is None else TWIN[0][n]
+        if TWIN is None:
+            return n
+        v = TWIN[0][n]
+        return v + 0.0 if isinstance(v, float) else F(v.numerator, v.denominator) if isinstance(v, F) else int(str(v))
     if n < 200:
         return '__a%d' % (n - 100)
     if n < 300:
-        return STRS[n - 200]
-    return TUPS[n - 300]
+        return (STRS[n - 200] + ' ')[:-1]
+    return tuple(list(TUPS[n - 300]))
 
 
 POOL = [0, 1, 2, 3, 5, 7] + STRS + TUPS   # labels for the labelled kinds
